@@ -284,6 +284,69 @@ def u_sqrt_lasso(h):
     h.observe('x', coefs[0])
 
 
+def u_reweight_weights(h, pen_name):
+    """IterativeReweightedL1 majorises  alpha * sum_j phi(|w_j|)  (phi concave on [0, inf)) by the weighted L1 norm with
+    weights  penalty.derivative(w): those weights must be (1) non-negative -- otherwise the surrogate is not convex --,
+    (2) a function of |w_j| only, and (3) non-increasing in |w_j| (concavity of phi), in particular largest at w_j = 0."""
+    import skglm.penalties as Pm
+    al = h.constant(1.0)
+    if pen_name == 'LogSumPenalty':
+        e = h.real('eps')
+        h.assume(e > 0)
+        pen = h.penalty(Pm.LogSumPenalty, alpha=al, eps=e)
+    else:
+        pen = h.penalty(getattr(Pm, pen_name), alpha=al)
+    x1, x2 = h.real('x1'), h.real('x2')
+    h.observe('x1', x1)
+    mk = (lambda v: h.arr(v)) if h.mode == 'sym' else (lambda v: np.array(v, dtype=float))
+    d = pen.derivative(mk([x1, x2, -x1]))
+    h.ensure('weights-are-non-negative', h.and_(h.ge(d[0], 0), h.ge(d[1], 0)))
+    h.ensure('weight-depends-on-|w|-only', h.eq(d[0], d[2]))
+    a1, a2 = abs(x1), abs(x2)
+    h.ensure('weights-non-increasing-in-|w|', h.implies(h.le(a1, a2), h.ge(d[0], d[1])))
+
+
+def u_reweighted_estimator(h, pen_name):
+    """real IterativeReweightedL1.fit with the solver intercepted: surrogate k+1 is WeightedL1(alpha, derivative(coef_k)),
+    the first one has unit weights, coef_ is the last solution, one history entry per reweighting"""
+    import skglm.penalties as Pm
+    from skglm.experimental.reweighted import IterativeReweightedL1
+    from skglm.solvers import AndersonCD
+    n, p, K = 3, 2, 3
+    X = h.mat('X', n, p)
+    y = h.vec('y', n)
+    A = h.real('alpha')
+    h.assume(A > 0)
+    pen = Pm.L0_5(A) if pen_name == 'L0_5' else Pm.LogSumPenalty(A, h.constant(0.5))
+    est = IterativeReweightedL1(penalty=pen, solver=AndersonCD(fit_intercept=False), n_reweights=K)
+    rets = []
+
+    def result(k, call):
+        r = ES.sym_result(h, p, tag='c%d_' % k)
+        for j in range(p):
+            h.assume(h.ne(r[0][j], 0))            # (weights at exactly 0 are the kernel unit's subject)
+        rets.append((r, call['penalty'].weights.copy(), call['penalty'].alpha))
+        return r
+    with ES.sklearn_stubs(h):
+        with ES.intercept_solve(h, result) as cap:
+            est.fit(X, y)
+    h.ensure('one-solve-per-reweighting', len(cap.calls) == K)
+    h.ensure('history-length', len(est.loss_history_) == K)
+    for k in range(min(K, len(rets))):
+        wts = rets[k][1]
+        h.ensure('surrogate-alpha[%d]' % k, h.eq(rets[k][2], A))
+        if k == 0:
+            h.ensure('first-surrogate-is-the-lasso', h.and_(h.eq(wts[0], 1), h.eq(wts[1], 1)))
+        else:
+            prev = rets[k - 1][0][0]
+            d = est.penalty.derivative(h.arr([prev[j] for j in range(p)]) if h.mode == 'sym' else np.array(prev[:p], dtype=float))
+            h.ensure('surrogate-weights[%d]==derivative(previous solution)' % k, h.and_(h.eq(wts[0], d[0]), h.eq(wts[1], d[1])))
+            h.ensure('surrogate-%d-is-convex (weights >= 0)' % k, h.and_(h.ge(wts[0], 0), h.ge(wts[1], 0)))
+    last = rets[-1][0][0]
+    h.ensure('coef_-is-the-last-solution', h.and_(h.eq(est.coef_[0], last[0]), h.eq(est.coef_[1], last[1])))
+    h.observe('x', last[0])
+
+
 def u_glm_estimator(h):
     """GeneralizedLinearEstimator hands exactly the user's components to the solver; Lasso == GLE(Quadratic, L1, AndersonCD)"""
     import skglm
@@ -389,6 +452,11 @@ def units(tier):
             us.append(Unit('C11/K/Cox-datafit[tm=%s,s=%s,efron=%s]' % (tm, sv, efron), c06.u_cox,
                            dict(tm=tm, s=sv, efron=efron, sparse_pattern=[[1, 0], [0, 1], [1, 1]][:len(tm)]), wall_s=60))
     us.append(Unit('C11/E/GeneralizedLinearEstimator', u_glm_estimator, {}, wall_s=90))
+    for pn in ('L0_5', 'L2_3', 'LogSumPenalty'):
+        us.append(Unit('C11/K/reweighting-weights[%s]' % pn, u_reweight_weights, dict(pen_name=pn), wall_s=60, timeout_ms=8000))
+    for pn in ('L0_5', 'LogSumPenalty'):
+        us.append(Unit('C11/E/IterativeReweightedL1[%s]' % pn, u_reweighted_estimator, dict(pen_name=pn), wall_s=90,
+                       timeout_ms=8000))
     return us
 
 
@@ -405,5 +473,5 @@ MANIFEST = dict(
     level_note=("sklearn validators stubbed; BaseEstimator._validate_data compatibility stub (removed in the installed "
                 "scikit-learn); BaseSolver.solve intercepted -- stationarity/optimality of what the real solver returns for "
                 "the captured composition is C01 (C02 when convex); documented objectives are a transcribed reference model; "
-                "n=3, p=2, T=2. IterativeReweightedL1 is not covered yet."),
+                "n=3, p=2, T=2. IterativeReweightedL1: plumbing of 3 reweightings and the weight function of the penalties offering `derivative` (non-negative, even, non-increasing in |w|); that the weights majorise phi tightly (equality with phi') is not asserted because the code regularises them by 1e-12."),
 )
